@@ -43,6 +43,10 @@ MUST_WORK = [
 ]
 KINDS = ['application/json', 'text/csv', 'text/html', 'application/xml', 'image/gif']
 WILD = ['*/*', 'application/*', 'text/*', '*/json', 'app*/*son']
+#: near misses of the registered kinds: strict prefixes / suffixes / extensions - a pattern must match the *whole* kind
+NEAR = ['application/jso', 'application/jsonl', 'application/json-seq', 'pplication/json', 'xapplication/json', 'text/cs',
+        'text/csvx', 'ext/csv', 'text/c']
+NEARWILD = ['*/jso', 'app*/js', '*/json*', 'text/c*', '*ext/csv', '*/cs', 't*/c', '*/*v', 'application/*l']
 OPTS = [('format', 'pandas-records'), ('format', 'pandas-split'), ('charset', 'utf-8'), ('a', 'x'), ('a', 'y')]
 QS = [None, '1', '1.0', '0.9', '0.5', '0.50', '0.1', '0', '0.001']
 
@@ -53,7 +57,7 @@ def shards(tier):
 
 def floors(tier):
     scale = 1 if tier == 'quick' else 12
-    return {'parse_checked': 2000 * scale, 'match_checked': 1200, 'encoder_checked': 300 * scale, 'codec_checked': 20}
+    return {'parse_checked': 2000 * scale, 'match_checked': 9000, 'encoder_checked': 300 * scale, 'codec_checked': 20}
 
 
 # ---------------------------------------------------------------- oracle
@@ -88,7 +92,7 @@ def render(ranges, rng) -> str:
 def gen_ranges(rng, n):
     out = []
     for _ in range(n):
-        kind = rng.choice(KINDS + WILD)
+        kind = rng.choice(KINDS + WILD) if rng.random() < 0.7 else rng.choice(NEAR + NEARWILD)
         opts = []
         for key, value in rng.sample(OPTS, rng.choice([0, 0, 1, 1, 2])):
             if key not in [k for k, _ in opts]:
@@ -276,14 +280,14 @@ def run(ctx):
     # -------- match: all pairs over the universe (every shard does a slice)
     optsets = [{}, {'a': 'x'}, {'a': 'y'}, {'a': 'x', 'format': 'pandas-records'}, {'format': 'pandas-records'}]
     index = 0
-    for pk, po, ck, co in itertools.product(KINDS + WILD, optsets, KINDS, optsets):
+    for pk, po, ck, co in itertools.product(KINDS + WILD + NEAR + NEARWILD, optsets, KINDS + NEAR, optsets):
         index += 1
         if ctx.mine(index):
             check_match(ctx, layout, (pk, po), (ck, co))
     # -------- decoder lookups over concrete encodings
     decopts = [{}, {'format': 'pandas-records'}, {'format': 'pandas-split'}, {'format': 'nonsense'}, {'charset': 'utf-8'},
                {'format': 'pandas-columns', 'charset': 'utf-8'}]
-    for kind, opts in itertools.product(KINDS + ['application/*'], decopts):
+    for kind, opts in itertools.product(KINDS + NEAR + ['application/*'], decopts):
         check_decoder(ctx, layout, codec, (kind, opts))
     # -------- codec round trips
     usable = roundtrip_pairs(layout, codec, dsl)
@@ -304,7 +308,7 @@ def run(ctx):
                                   lambda: rng.randint(-99, 99) + 0.5]) for _ in range(ncols)]
             rows = [[m() for m in makers] for _ in range(rng.randint(1, 5))]
             check_codec(ctx, layout, dsl, encoder, decoder, names, rows, named='data only' not in label)
-    ctx.sample({'match_universe': len(KINDS + WILD) * len(optsets) * len(KINDS) * len(optsets)})
+    ctx.sample({'match_universe': len(KINDS + WILD + NEAR + NEARWILD) * len(optsets) * len(KINDS + NEAR) * len(optsets)})
 
 
 def replay(ctx, witness):
